@@ -176,3 +176,141 @@ for _nm, _st in (("play_NoteContainer", 144), ("stop_NoteContainer", 128)):
        split_is_domain=True,
        notes="domain: containers of 0..4 notes with arbitrary names, channels and velocities in MIDI range",
        battery="track_nc")
+
+
+# ---------------------------------------------------------------- setters that append one meta event
+_B0 = "len(old_data) + len(old_dt)"
+_APPEND = [("earlier-data-untouched", "self.track_data[:len(old_data)] == old_data"),
+           ("pending-delta-time-first", "self.track_data[len(old_data):%s] == old_dt" % _B0)]
+_c("set_meter",
+   params={"self": "MidiTrack", "meter": "(int,int)"},
+   requires="0 <= meter[0] and meter[0] < 256 and meter[1] in (1, 2, 4, 8, 16, 32, 64, 128)",
+   returns="None", old=_OLD,
+   ensures=_APPEND + [
+       ("appends-one-time-signature-event", "len(self.track_data) == %s + 7" % _B0),
+       ("meta-time-signature-length-4", "self.track_data[%s] == 255 and self.track_data[%s + 1] == 88 and "
+                                        "self.track_data[%s + 2] == 4" % (_B0, _B0, _B0)),
+       ("numerator", "self.track_data[%s + 3] == meter[0]" % _B0),
+       ("denominator-as-power-of-two", "pow2_of(self.track_data[%s + 4]) == meter[1]" % _B0),
+       ("clocks", "self.track_data[%s + 5] == 24 and self.track_data[%s + 6] == 8" % (_B0, _B0))],
+   modifies=["param:self"], havoc={"self.track_data": "bytes"}, battery="track_meter")
+CLASSES["KeyObj"] = {"class": "mingus.core.keys.Key", "fields": {"key": "str"}}
+_KEY_ENS = _APPEND + [
+    ("appends-one-key-signature-event", "len(self.track_data) == %s + 5" % _B0),
+    ("meta-key-signature-length-2", "self.track_data[%s] == 255 and self.track_data[%s + 1] == 89 and "
+                                    "self.track_data[%s + 2] == 2" % (_B0, _B0, _B0)),
+    ("sharps-or-flats-count", "self.track_data[%s + 3] == twos8(key_sig(KEYNAME))" % _B0),
+    ("major-minor-flag", "self.track_data[%s + 4] == (1 if KEYNAME[0] in 'abcdefg' else 0)" % _B0)]
+_c("set_key",
+   params={"self": "MidiTrack", "key": "str"}, requires="is_key(key)", returns="None", old=_OLD,
+   ensures=[(n, e.replace("KEYNAME", "key")) for n, e in _KEY_ENS],
+   variants=[dict(name="key-object", params={"self": "MidiTrack", "key": "KeyObj"}, requires="is_key(key.key)",
+                  ensures=[(n, e.replace("KEYNAME", "key.key")) for n, e in _KEY_ENS],
+                  split=[{"bind_fields": {"key.key": k}} for k in KEYS30])],
+   split=[{"bind": {"key": k}} for k in KEYS30],
+   modifies=["param:self"], havoc={"self.track_data": "bytes"}, battery="track_key")
+_c("set_tempo",
+   params={"self": "MidiTrack", "bpm": "int"}, requires="4 <= bpm and bpm <= 60000000", returns="None", old=_OLD,
+   ensures=_APPEND + [
+       ("appends-one-set-tempo-event", "len(self.track_data) == %s + 6" % _B0),
+       ("meta-set-tempo-length-3", "self.track_data[%s] == 255 and self.track_data[%s + 1] == 81 and "
+                                   "self.track_data[%s + 2] == 3" % (_B0, _B0, _B0)),
+       ("microseconds-per-quarter-big-endian",
+        "self.track_data[%s + 3] * 65536 + self.track_data[%s + 4] * 256 + self.track_data[%s + 5] == 60000000 // bpm"
+        % (_B0, _B0, _B0)),
+       ("tempo-remembered", "self.bpm == bpm")],
+   modifies=["param:self"], havoc={"self.track_data": "bytes", "self.bpm": "=bpm"}, battery="track_bpm")
+
+
+# ---------------------------------------------------------------- bar walker: the event view
+# Two-level argument.  Level 1 (above): every leaf (set_deltatime, set_meter, set_key, set_tempo, play_/stop_NoteContainer)
+# is proved byte-exact and append-only on track_data.  Level 2 (here): play_Bar is proved to call exactly these leaves,
+# with these arguments, in this order -- for every bar of up to three entries with arbitrary values and contents (rests,
+# empty containers, containers of one or two notes, containers carrying a tempo) -- and to leave exactly the trailing
+# rests as pending delay.  The bytes of a bar are then the concatenation of the leaves' bytes (append-only + order).
+CLASSES["MidiBar"] = {"class": "mingus.containers.bar.Bar",
+                      "fields": {"bar": "list[any]", "meter": "(int,int)", "key": "KeyObj"}}
+CLASSES["TempoContainer"] = {"class": "mingus.containers.note_container.NoteContainer",
+                             "fields": {"notes": "[Note]", "bpm": "int"}}
+_ENTRY_KINDS = ["[real,real,None]", "[real,real,NoteContainer]", "[real,real,TempoContainer]"]
+_NOTES_KINDS = ["[]", "[Note]", "[Note,Note]"]
+
+
+def _bar_shapes():
+    import itertools
+    shapes = [[]]
+    for n in (1, 2, 3):
+        kinds = _ENTRY_KINDS if n < 3 else _ENTRY_KINDS[:2]
+        shapes += [list(c) for c in itertools.product(kinds, repeat=n)]
+    return shapes
+
+
+_BAR_REQ = [
+    ("meter-encodable", "0 <= bar.meter[0] and bar.meter[0] < 256 and bar.meter[1] in (1, 2, 4, 8, 16, 32, 64, 128)"),
+    ("key-is-one-of-the-30", "is_key(bar.key.key)"),
+    ("values-positive-and-lengths-below-2**28-ticks", "all([e[1] > 0.00001 for e in bar.bar])"),
+    ("containers-fit-midi", "all([e[2] is None or nc_midi_valid(e[2]) for e in bar.bar])"),
+    ("tempo-changes-encodable", "all([e[2] is None or not hasattr(e[2], 'bpm') or (4 <= e[2].bpm and e[2].bpm <= 60000000) "
+                                "for e in bar.bar])"),
+    ("pending-delay-encodable", "0 <= self.delay and self.delay < 2 ** 27"),
+    ("no-pending-instrument-change", "not self.change_instrument")]
+_c("play_Bar",
+   params={"self": "MidiTrack", "bar": "MidiBar"}, requires=_BAR_REQ, returns="None",
+   old={"old_delay": "self.delay"},
+   emits="[('set_deltatime', old_delay), ('set_meter', bar.meter), ('set_deltatime', 0), ('set_key', bar.key)] + "
+         "entries_events(self, 0, bar.bar)",
+   ensures=[("trailing-rests-stay-pending", "self.delay == final_delay(0, bar.bar)")],
+   callee_events={M + "set_deltatime": "set_deltatime", M + "set_meter": "set_meter", M + "set_key": "set_key",
+                  M + "set_tempo": "set_tempo", M + "play_NoteContainer": "play_NoteContainer",
+                  M + "stop_NoteContainer": "stop_NoteContainer"},
+   split=[{"field_types": {"bar.bar": "[" + ",".join(sh) + "]"}} for sh in _bar_shapes()],
+   split_is_domain=True,
+   modifies=["param:self"], havoc={"self.delay": "int"}, battery="track_bar",
+   notes="domain: bars of 0..3 entries; each entry a rest, a container, or (first two positions) a container with a "
+         "tempo; values arbitrary positive reals (float-as-real, round-half-even exact on reals); one note per "
+         "container in this split (the container walkers are proved for 0..4 notes)")
+
+
+# ---------------------------------------------------------------- track walker: the event view
+CLASSES["MidiOutTrack"] = {"class": "mingus.containers.track.Track", "fields": {"bars": "list[any]", "instrument": "None"}}
+INLINE |= set(["mingus.containers.track.Track.__getitem__"])
+
+
+def _small_bar_shapes():
+    import itertools
+    shapes = [[]]
+    for n in (1, 2):
+        shapes += [list(c) for c in itertools.product(_ENTRY_KINDS[:2], repeat=n)]
+    return shapes
+
+
+def _track_shapes():
+    import itertools
+    out = [[]]
+    for n in (1, 2):
+        out += [list(c) for c in itertools.product(_small_bar_shapes(), repeat=n)]
+    return out
+
+
+def _track_split(shape):
+    d = {"field_types": {"track.bars": "[" + ",".join(["MidiBar"] * len(shape)) + "]"}}
+    for i, sh in enumerate(shape):
+        d["field_types"]["track.bars.%d.bar" % i] = "[" + ",".join(sh) + "]"
+    return d
+
+
+_TR_REQ = [(n, "all([%s for bar in track.bars])" % e) for n, e in _BAR_REQ[:5]] + \
+          [("pending-delay-encodable", "0 <= self.delay and self.delay < 2 ** 26"),
+           ("no-pending-instrument-change", "not self.change_instrument")]
+_c("play_Track",
+   params={"self": "MidiTrack", "track": "MidiOutTrack"}, requires=_TR_REQ, returns="None",
+   emits="[('play_Bar', b) for b in track.bars]", old={"old_delay": "self.delay"},
+   ensures=[("pending-delay-is-the-last-bars-trailing-rests",
+             "self.delay == (old_delay if len(track.bars) == 0 else "
+             "final_delay(0, track.bars[len(track.bars) - 1].bar))")],
+   callee_events={M + "play_Bar": {"name": "play_Bar", "assume": ["trailing-rests-stay-pending"]}},
+   split=[_track_split(sh) for sh in _track_shapes()], split_is_domain=True,
+   modifies=["param:self"], battery="track_track",
+   notes="domain: tracks without a name and without a MIDI instrument number, 0..2 bars of 0..2 entries each (rest or "
+         "container), arbitrary values; with an instrument number the first note event is preceded by the program "
+         "change (play_Note's other branch): that path is the driver's")
